@@ -687,6 +687,12 @@ impl<Hd: TokP, El: TokP> FaultEngine<Hd, El> {
             })
         }));
         let fired = tok::callbacks() as i64 >= k && k > 0;
+        // the tracking allocator reports a release whose layout differs from the request under C05; when it happens
+        // on the cleanup path of a constructor it is this property's business too
+        let bad_layouts = viol::count_clause("F.layout-mismatch") + viol::count_clause("F.interior-free") + viol::count_clause("F.double-free");
+        if bad_layouts > 0 {
+            viol::report(&["C07", "C05"], "J.cleanup-release", format!("{}: the constructor's own cleanup released a block wrongly ({} allocator-level reports: layout mismatch / interior pointer / double free)", what, bad_layouts));
+        }
         tok::panic_at(0);
         drop(hopt);
         let injected = fired || iter_drop_panics;
